@@ -197,6 +197,44 @@ static void build_menu(const unsigned char *a, int len, char downenc)
 			int PT[] = { own, own + 1, len - 1, len, len + 1, 0x3fff, 0, 11 };
 			for (unsigned i = 0; i < sizeof PT / sizeof PT[0]; i++) { memcpy(v, a, len); v[own] = 0xc0 | (PT[i] >> 8); v[own + 1] = PT[i]; add_item(v, len, 0, "answer whose owner name points to offset %d", PT[i]); }
 		}
+		/* names that EXPAND beyond any name buffer: ordinary labels followed by a compression pointer (to themselves,
+		 * to the question, or to labels inside the record data), in the question, the owner name and the record target */
+		{
+			int qn = m.qnamelen, qt_off = 12 + qn;                      /* the honest server never compresses the question */
+			static unsigned char lab[800];
+			for (int nl = 1; nl <= 3; nl++) for (int ll = 1; ll <= 63; ll += 31) for (int where = 0; where < 4; where++) {
+				/* prefix = nl labels of ll bytes */
+				int pl = 0;
+				for (int i = 0; i < nl; i++) { lab[pl++] = ll; memset(lab + pl, 'a' + i, ll); pl += ll; }
+				int n = 0;
+				memcpy(v, a, 12); v[4] = 0; v[5] = 1; v[6] = 0; v[7] = 1; v[8] = v[9] = v[10] = v[11] = 0; n = 12;
+				if (where == 0) {
+					/* question: prefix + pointer to the question itself; owner: pointer to it */
+					memcpy(v + n, lab, pl); n += pl; v[n++] = 0xc0; v[n++] = 12;
+					memcpy(v + n, a + qt_off, 4); n += 4;
+					v[n++] = 0xc0; v[n++] = 12;
+					memcpy(v + n, a + r->rdoff - 10, 10 + r->rdlen); n += 10 + r->rdlen;
+				} else if (where == 1) {
+					/* honest question; owner: prefix + pointer to the (up to 255-byte) question */
+					memcpy(v + n, a + 12, qn + 4); n += qn + 4;
+					memcpy(v + n, lab, pl); n += pl; v[n++] = 0xc0; v[n++] = 12;
+					memcpy(v + n, a + r->rdoff - 10, 10 + r->rdlen); n += 10 + r->rdlen;
+				} else {
+					/* honest question and owner; record data: [preference etc.] prefix + pointer to the prefix (where 2) or to the question (where 3) */
+					int fixed = r->type == 15 ? 2 : r->type == 33 ? 6 : 0;
+					if (r->type != 5 && r->type != 15 && r->type != 33 && r->type != 1) continue;
+					memcpy(v + n, a + 12, qn + 4); n += qn + 4;
+					v[n++] = 0xc0; v[n++] = 12;
+					memcpy(v + n, a + r->rdoff - 10, 8); n += 8;
+					int rl = fixed + pl + 2; v[n++] = rl >> 8; v[n++] = rl;
+					memcpy(v + n, a + r->rdoff, fixed); n += fixed;
+					int tgt = n;
+					memcpy(v + n, lab, pl); n += pl; v[n++] = 0xc0 | ((where == 2 ? tgt : 12) >> 8); v[n++] = (where == 2 ? tgt : 12);
+				}
+				add_item(v, n, where == 0, "answer with %d labels of %d bytes followed by a compression pointer in the %s", nl, ll,
+					 where == 0 ? "question (pointing to itself)" : where == 1 ? "owner name (pointing to the question)" : where == 2 ? "record target (pointing to itself)" : "record target (pointing to the question)");
+			}
+		}
 		/* question name replaced by a pointer loop */
 		memcpy(v, a, len); v[12] = 0xc0; v[13] = 12; add_item(v, len, 0, "answer whose question name is a pointer to itself");
 		if (r->type == 16) {
